@@ -73,6 +73,7 @@ type Config struct {
 	MaxPool     int       `json:"max_pool"`
 	PreENIs     []PreENI  `json:"pre_enis"`
 	Pods        []PodSpec `json:"pods"`
+	CacheLagMs  int       `json:"cache_lag_ms,omitempty"`  // > 0: controller and agent read through an informer cache lagging by up to this much
 	CacheSyncMs int       `json:"cache_sync_ms,omitempty"` // phase between the agent's CRD loops and its collection loop
 	Populated   string    `json:"populated"`               // "" | "synced" | "bound" | "bound-no-uid": initial Node status
 	GCPeriodS   int       `json:"gc_period_s"`
@@ -168,6 +169,8 @@ type World struct {
 	passStartFullReads int                  // cloud.fullReads when the current reconcile began
 	passStartRep       map[string][2]string // pod name -> addresses the pod reported when the current reconcile began
 	passStartUID       map[string]string    // pod name -> uid, for the pods that existed when the current reconcile began
+	unboundAt          map[string]time.Time // pod|address -> when a status write took the binding away
+	reportLost         map[string]bool      // pod uid -> the agent restarted before its teardown report reached the runtime object
 	rtSeen             map[string]rtStamps  // pod uid -> newest CNI stamps the agent ever wrote to the runtime object
 	delComplete        map[string]bool      // pod uid -> the DEL of every sandbox of the pod returned success
 	addOK              map[string]bool      // pod uid -> an ADD for it succeeded: the agent holds a record of the pod
@@ -230,7 +233,7 @@ func (ClusterWorld) Run(t *testing.T, scAny any, chooser simrt.Chooser, keepLog 
 	defer os.RemoveAll(dir)
 	return kit.Execute(t, chooser, keepLog, 600_000, func(run *kit.Run) {
 		w := &World{run: run, sc: sc, cfg: &sc.Cfg, dir: dir, faultIdx: map[string]int{}, faultPlan: map[string]string{},
-			pendingInstance: map[string]string{}, pendingSince: map[string]int{}, everRecorded: map[string]bool{}, cniInFlight: map[string]int{}, addInFlight: map[string]int{}, suspectReport: map[string]bool{}, addFailed: map[string]bool{}, addOK: map[string]bool{}, delComplete: map[string]bool{}, rtSeen: map[string]rtStamps{}, delProcessed: map[string]bool{}, trigger: make(chan struct{}, 1)}
+			pendingInstance: map[string]string{}, pendingSince: map[string]int{}, everRecorded: map[string]bool{}, cniInFlight: map[string]int{}, addInFlight: map[string]int{}, suspectReport: map[string]bool{}, addFailed: map[string]bool{}, addOK: map[string]bool{}, delComplete: map[string]bool{}, rtSeen: map[string]rtStamps{}, unboundAt: map[string]time.Time{}, reportLost: map[string]bool{}, delProcessed: map[string]bool{}, trigger: make(chan struct{}, 1)}
 		w.main()
 	})
 }
@@ -292,14 +295,14 @@ func (w *World) snapshotPassStart() {
 	w.passStartFullReads = w.cloud.fullReads
 	w.passStartUID, w.passStartRep = map[string]string{}, map[string][2]string{}
 	for _, p := range w.pods {
-		if !p.exists {
+		// what a pass that begins now can read: the cache's view of the pod
+		pod := &corev1.Pod{ObjectMeta: metav1.ObjectMeta{Name: p.spec.Name, Namespace: ns}}
+		if !w.api.Peek(pod) {
 			continue
 		}
-		w.passStartUID[p.spec.Name] = p.uid
-		if pod := w.truthPod(p.spec.Name); pod != nil {
-			v4, v6 := reported(pod)
-			w.passStartRep[p.spec.Name] = [2]string{v4, v6}
-		}
+		w.passStartUID[p.spec.Name] = string(pod.UID)
+		v4, v6 := reported(pod)
+		w.passStartRep[p.spec.Name] = [2]string{v4, v6}
 	}
 }
 
@@ -310,7 +313,8 @@ func (w *World) createPod(p *podState) {
 	p.exited = false
 	p.sbs = nil
 	p.v4, p.v6 = "", ""
-	if err := w.api.Inner.Create(context.Background(), w.podObject(p)); err != nil {
+	obj := w.podObject(p)
+	if err := w.api.DirectWrite(obj, func() error { return w.api.Inner.Create(context.Background(), obj) }); err != nil {
 		panic(fmt.Sprintf("harness: create pod: %v", err))
 	}
 	w.run.S.Log("kubelet", "pod %s created uid=%s", p.spec.Name, p.uid)
@@ -320,7 +324,8 @@ func (w *World) createPod(p *podState) {
 func (w *World) deletePod(p *podState) {
 	p.exists = false
 	p.goneAt = time.Now()
-	_ = w.api.Inner.Delete(context.Background(), &corev1.Pod{ObjectMeta: metav1.ObjectMeta{Name: p.spec.Name, Namespace: ns}})
+	gone := &corev1.Pod{ObjectMeta: metav1.ObjectMeta{Name: p.spec.Name, Namespace: ns}}
+	_ = w.api.DirectWrite(gone, func() error { return w.api.Inner.Delete(context.Background(), gone) })
 	w.run.S.Log("kubelet", "pod object %s deleted", p.spec.Name)
 }
 
@@ -340,7 +345,7 @@ func (w *World) setPodStatus(p *podState, phase corev1.PodPhase, v4, v6 string) 
 		}
 		pod.Status.PodIPs = append(pod.Status.PodIPs, corev1.PodIP{IP: ip})
 	}
-	_ = w.api.Inner.Status().Update(context.Background(), pod)
+	_ = w.api.DirectWrite(pod, func() error { return w.api.Inner.Status().Update(context.Background(), pod) })
 	p.v4, p.v6 = v4, v6
 }
 
@@ -460,7 +465,7 @@ func (w *World) startDaemon() error {
 	svcCIDR := &types.IPNetSet{}
 	svcCIDR.SetIPNet("172.16.0.0/16")
 	knode := &corev1.Node{ObjectMeta: metav1.ObjectMeta{Name: nodeName, UID: "node-uid"}}
-	kk := k8s.NewForSim(w.api.Client, &yieldStorage{w, podDB}, daemon.ModeENIMultiIP, nodeName, "kube-system", knode, svcCIDR, w.cfg.ERDMA)
+	kk := k8s.NewForSim(w.api.Direct, &yieldStorage{w, podDB}, daemon.ModeENIMultiIP, nodeName, "kube-system", knode, svcCIDR, w.cfg.ERDMA)
 	crd := eni.NewCRDV2ForSim(w.api.Client, nodeName)
 	crd.CacheSync = time.Duration(w.cfg.CacheSyncMs) * time.Millisecond
 	mgr := eni.NewManager(0, 0, 0, 0, []eni.NetworkInterface{crd}, daemon.EniSelectionPolicyMostIPs, nil)
@@ -498,6 +503,7 @@ func (w *World) newController() {
 func (w *World) startController() {
 	w.ctlGen++
 	gen := w.ctlGen
+	w.api.ResetCache() // informers list before the first reconcile: what exists is in the cache
 	w.newController()
 	w.run.S.GoNamed("reconciler", 0, func() {
 		backoff := time.Second
@@ -515,6 +521,7 @@ func (w *World) startController() {
 			}
 			if w.restartCtl {
 				w.restartCtl = false
+				w.api.ResetCache()
 				w.newController()
 				backoff = time.Second
 				if w.unsynced {
